@@ -177,7 +177,7 @@ def handle (op : String) (args : List String) : Option String :=
         match p? with
         | none => "bad-arg"
         | some p =>
-          match diskFirstPass inf Sha1.sha1 p s inp with
+          match diskFirstPass Cfg.current inf Sha1.sha1 p s inp with
           | .ok (some (file, _, bases)) => "final " ++ hex (extendPack Sha1.sha1 (tableDeflate sz) file bases)
           | _ => "-"
       | _, _, _ => "bad-arg"
@@ -191,7 +191,7 @@ def handle (op : String) (args : List String) : Option String :=
         | none => "bad-arg"
         | some p =>
           let inf1 := tableInflate inp.length t1
-          let final := match diskFirstPass inf1 Sha1.sha1 p s inp with
+          let final := match diskFirstPass Cfg.current inf1 Sha1.sha1 p s inp with
             | .ok (some (file, _, bases)) => extendPack Sha1.sha1 (tableDeflate sz) file bases
             | _ => []
           let inf := tableInflate2 inp final t1 t2
